@@ -21,11 +21,17 @@ rc, out = sh(democmd); res["demo_with_patch"] = "fail" if rc != 0 else "PASSES";
 for _, dst in places:
     os.rename(os.path.join(wt, dst), os.path.join(wt, dst) + ".off")
 suite = []
+import time, random
 for i in range(2):
-    rc, out = sh("go test -vet=off -count=1 -timeout 25m ./...")
+    for attempt in range(10):
+        p = subprocess.run("go test -vet=off -count=1 -timeout 25m ./...", shell=True, cwd=wt, env=env, capture_output=True, text=True)
+        rc, out = p.returncode, p.stdout + p.stderr
+        if "address already in use" in out:   # another suite holds port 5140 right now
+            time.sleep(random.randint(5, 25)); continue
+        break
     suite.append("pass" if rc == 0 else "FAIL")
     if rc != 0:
-        print(out)
+        print("\n".join(l for l in out.splitlines() if l.startswith(("FAIL", "---", "panic")))[:1500])
 res["existing_suite_with_patch"] = suite
 for _, dst in places:
     os.remove(os.path.join(wt, dst) + ".off")
